@@ -317,7 +317,7 @@ func runNoSentinel(p *harness.Proxy, binary bool, cmds []wire.Cmd) c08Outcome {
 		// keys that live only in L2 make the L1/L2 orchestrators answer out of key order
 		if p.Cfg.L2 && p.Cfg.L1Kind == "std" {
 			if erng.Intn(3) == 0 {
-				ks := keyAlphabet("std")
+				ks := c08Keys("std")
 				p.L1.Evict(ks[erng.Intn(len(ks))])
 			}
 			if c.IsGet() && len(c.Keys) > 1 {
@@ -426,7 +426,7 @@ func checkC08(tier, replay string) int {
 				g := newGen(run.Seed()*9000011 + int64(hashStr(cfg.Name()+protoName(binary)+pm.Name)))
 				for i := 0; i < npipe; i++ {
 					mode := []string{"pipelined", "one-write-per-request", "await-each"}[i%3]
-					o := genOpts{Binary: binary, Keys: keyAlphabet(cfg.L1Kind), MinLen: 10, MaxLen: 60, TTLs: []string{"0", "1000", "abs-future"}, T0: p.L1.T0(),
+					o := genOpts{Binary: binary, Keys: c08Keys(cfg.L1Kind), MinLen: 10, MaxLen: 60, TTLs: []string{"0", "1000", "abs-future"}, T0: p.L1.T0(),
 						AllowGat: true, AllowQuiet: true, AllowMulti: true, Ports: pm.Ports, ValueLens: []int{0, 1, 30, 1100, 5000}}
 					var cmds []wire.Cmd
 					var out c08Outcome
@@ -604,4 +604,13 @@ func c08FirstRequests(run *evid.Run, p *harness.Proxy) {
 			}
 		}
 	}
+}
+
+// c08Keys is the key alphabet of the reply-discipline workloads: outside the chunked shapes two of the
+// keys contain '%' (legal in both protocols; a reply line must carry the key verbatim).
+func c08Keys(kind string) []string {
+	if kind == "chunked" {
+		return keyAlphabet(kind)
+	}
+	return []string{"ka", "kb", "k%dc", "kd%"}
 }
